@@ -22,10 +22,10 @@ EXPLANATION = (
     'is a prefix of (header,)+data; R4 every removal/rebinding of the pattern table cancels the removed timers, and both ways a '
     'session ends (close_link, link error) empty the table; R5 every transmission is inside the send-lock region under link-is-not-None; '
     'R6 every CRTPDriver subclass initialises needs_resending at construction; R7 its value: False for USB/TCP/serial/cflinkcpp, '
-    'radio = not safelink, base default True. Timer-vs-reply timing itself is not decided; the lock + pending test make it irrelevant.')
+    'radio = not safelink, base default True; R8 sent and received headers are normalised identically; R9 a driver whose send_packet refuses on a None handle leaves that handle None after close() on every returning path (exception handlers included). Timer-vs-reply timing itself is not decided; the lock + pending test make it irrelevant.')
 ASSUMPTIONS = ['threading.Timer.cancel() prevents a timer that has not fired yet from firing',
                'drivers are the classes deriving from CRTPDriver in cflib/crtp']
-FLOORS = {'R8': 1, 'R1': 8, 'R2': 2, 'R3': 6, 'R4': 5, 'R5': 2, 'R6': 7, 'R7': 6}
+FLOORS = {'R9': 1, 'R8': 1, 'R1': 8, 'R2': 2, 'R3': 6, 'R4': 5, 'R5': 2, 'R6': 7, 'R7': 6}
 
 PAT = 'self._answer_patterns'
 
@@ -258,6 +258,7 @@ def check(ctx):
                 ctx.inst('R6', f, 'initialises-needs_resending', own is not None or calls_base,
                          '%s.__init__ neither sets needs_resending nor calls the base constructor (AttributeError on the first request with an expected reply)' % k.name)
                 val = own if own is not None else (bset if calls_base else None)
+            closed_guard_rule(ctx, k)
             if k.name in want:
                 ctx.inst('R7', (path, k.qualname), 'value', val == want[k.name], 'needs_resending after construction is %s, expected %s' % (val, want[k.name]))
     ctx.need(found >= 6, 'expected at least 6 CRTPDriver subclasses, found %d' % found)
@@ -284,6 +285,32 @@ def header_normalisation_rule(ctx, rule):
              'constructor header bits %s vs _update_header bits %s: bits 3..2 must be forced to 1 on both sides' % (B_.describe(bi, 8), B_.describe(bu, 8)))
 
 
+def closed_guard_rule(ctx, k):
+    """R9 - a driver whose send_packet refuses to transmit when a handle attribute is None ("closed") must leave that attribute None
+    after close() on every path that returns, including the paths through close()'s own exception handlers."""
+    if not (k.has('send_packet') and k.has('close')):
+        return
+    sp, cl = k.method('send_packet'), k.method('close')
+    g = cfg_of(sp)
+    guards = set()
+    for n in g.nodes:
+        if n.kind == 'return':
+            for txt, pol in g.fact_keys_at(n):
+                parts = txt.split(' is ')
+                if pol and len(parts) == 2 and 'None' in parts:
+                    other = parts[0] if parts[1] == 'None' else parts[1]
+                    if other.startswith('self.') and ' ' not in other:
+                        guards.add(other)
+                if (not pol) and txt.startswith('self.') and ' ' not in txt and '(' not in txt:
+                    guards.add(txt)
+    for attr in sorted(guards):
+        gc = cfg_of(cl, exceptional=True)
+        nul = [n for n in gc.nodes if n.kind == 'stmt' and isinstance(n.ast, ast.Assign) and any(norm(t) == attr for t in n.ast.targets) and norm(n.ast.value) == 'None']
+        esc = gc.path_avoiding(gc.entry, [gc.exit], avoid=nul)
+        ctx.inst('R9', cl, 'closed-guard-set:' + attr, bool(nul) and esc is None,
+                 'send_packet transmits unless %s is None, so close() must leave it None on every returning path%s' % (attr, '; path keeping it: ' + gc.fmt_path(esc) if esc else ''))
+
+
 def init_value(f):
     """final constant stored to self.needs_resending in a constructor ('True'/'False'/other text/None)."""
     vals = [norm(s.value) for s in walk_own(f.node) if isinstance(s, ast.Assign) and any(norm(t) == 'self.needs_resending' for t in s.targets)]
@@ -291,6 +318,8 @@ def init_value(f):
 
 
 VARIANTS = [
+    M('R9', 'cflib/crtp/usbdriver.py', "                self.cfusb.close()\n        except Exception as e:", "                self.cfusb.close()\n                self.cfusb = None\n        except Exception as e:",
+      'usb handle kept when the close fails', extra=[('cflib/crtp/usbdriver.py', "            pass\n        self.cfusb = None\n", "            pass\n")]),
     M('R1', CF, "                if len(expected_reply) > 0 and not resend and \\\n                        self.link.needs_resending:", "                if len(expected_reply) > 0 and not resend:", 'arm without needs_resending'),
     M('R1', CF, "                    self._answer_patterns[pattern] = new_timer\n                    new_timer.start()\n                elif resend:", "                    self._answer_patterns[pattern] = new_timer\n                elif resend:", 'first timer never started'),
     M('R1', CF, "        self.send_packet(pk, expected_reply=pattern, resend=True)", "        self.send_packet(pk, expected_reply=pattern)", 'retry without resend flag'),
